@@ -896,6 +896,10 @@ class Connection(ExportImport):
     def readCurrent(self, ob):
         assert ob._p_jar is self
         assert ob._p_oid is not None and ob._p_serial is not None
+        if ob._p_changed is None:
+            # A ghost does not know its serial yet (it reads as z64, like
+            # that of a new object, and the declaration would be lost).
+            ob._p_activate()
         if ob._p_serial != z64:
             self._readCurrent[ob._p_oid] = ob._p_serial
 
